@@ -125,13 +125,12 @@ func c12R1(env *c06Env) {
 			r.Fail(rule, fi.Name()+"|transceiver-loop", c.P.Pos(fi.Decl.Pos()), "no loop over local transceivers appends sections")
 		}
 	}
-	c12OfferMids(env)
+	c12OfferMids(env, "C12.R1")
 }
 
 // c12OfferMids: CreateOffer assigns a mid to every transceiver before generating.
-func c12OfferMids(env *c06Env) {
+func c12OfferMids(env *c06Env, rule string) {
 	c, r := env.c, env.c.R
-	const rule = "C12.R1"
 	fi := env.createOffer
 	g := c.P.GraphOf(fi)
 	info := g.Info
